@@ -38,8 +38,15 @@ def extrusion(kind, tier):
         "UseFw": "TRUE" if kind in ("fw", "mixed") else "FALSE",
         "UseEonly": "TRUE" if kind in ("e", "mixed", "inch") else "FALSE",
         "UseAt": "TRUE", "UseG92E": "TRUE", "UseInch": "TRUE" if kind == "inch" else "FALSE",
-        "EMax": 6,
+        "EMax": 6, "UseM83": "TRUE" if kind == "m83" else "FALSE",
     }
+    if kind == "m83":
+        # relative extruder addressing: M82 / M83 switches, G92 E to a non-zero value
+        consts["UseEonly"] = "TRUE"
+        consts["UseAt"] = "FALSE"
+        # depth 8 is where a coordinate drift left by a relative-mode recovery first shows
+        # (M83, retract, enter, recover, leave, print, M82, E word): Dev switch relNoG92
+        consts["Depth"] = 8 if tier == "quick" else 10
     if kind == "mixed" and tier == "quick":
         consts["Depth"] = 6
     inv = ["InvC01", "InvC02", "InvC04", "InvC05", "InvC09", "InvC14", "EpisodeAgreement",
@@ -80,7 +87,7 @@ def for_property(prop, tier):
     if prop == "C04":
         return [extrusion("e", tier), extrusion("inch", tier)]
     if prop == "C05":
-        return [extrusion("e", tier), extrusion("fw", tier)]
+        return [extrusion("e", tier), extrusion("fw", tier), extrusion("m83", tier)]
     if prop == "C06":
         return [deferred(tier)]
     if prop == "C07":
